@@ -2,6 +2,7 @@ package props
 
 import (
 	"fmt"
+	"unsafe"
 
 	"verif/internal/mon"
 )
@@ -302,4 +303,16 @@ func argI32(w *mon.W, l []int32) ([]int32, func() bool) {
 	return big[2 : 2+n : n+5], func() bool {
 		return big[0] == poisonI && big[1] == poisonI && big[2+n] == poisonI && big[3+n] == poisonI && big[4+n] == poisonI && big[5+n] == poisonI
 	}
+}
+
+// overlapI32 reports whether the backing arrays of a and b, each taken up to its CAPACITY, share memory. Two
+// slices handed to the caller by one call are two objects: appending to one (within its capacity) must not be
+// able to reach the other.
+func overlapI32(a, b []int32) bool {
+	if cap(a) == 0 || cap(b) == 0 {
+		return false
+	}
+	a0 := uintptr(unsafe.Pointer(unsafe.SliceData(a)))
+	b0 := uintptr(unsafe.Pointer(unsafe.SliceData(b)))
+	return a0 < b0+4*uintptr(cap(b)) && b0 < a0+4*uintptr(cap(a))
 }
